@@ -107,19 +107,28 @@ def _make_condition(q, ineq, value, phase, element):
     return cls(I, value, phase=phase)
 
 
-def _draw_conditions(rng, A, model):
-    """1-3 conditions with thresholds drawn from A's own history."""
+def _draw_conditions(rng, A, model, force=None):
+    """1-3 conditions with thresholds drawn from A's own history. force = 'last_element' / 'last_phase' makes the
+    first condition select the last solute / last precipitate phase (selection other than the default index 0)."""
     n = int(rng.choice([1, 1, 2, 2, 3]))
     conds = []
-    for _ in range(n):
+    for ic in range(n):
         q = str(rng.choice(QUANT))
         phase = element = None
+        if ic == 0 and force == 'last_element':
+            q = 'composition'
+        if ic == 0 and force == 'last_phase' and q == 'composition':
+            q = str(rng.choice(QUANT[:5]))
         if q == 'composition':
             if len(model.elements) > 1 or rng.random() < 0.5:
                 element = str(rng.choice(list(model.elements)))
+            if ic == 0 and force == 'last_element':
+                element = str(list(model.elements)[-1])
         else:
             if len(model.phases) > 1 or rng.random() < 0.5:
                 phase = str(rng.choice(list(model.phases)))
+            if ic == 0 and force == 'last_phase':
+                phase = str(list(model.phases)[-1])
         h = _quantity(A, q, model, phase, element)
         lo, hi = float(np.min(h)), float(np.max(h))
         r = rng.random()
@@ -209,7 +218,8 @@ def run_case(case, R):
     inside = 0
     for s in range(case['first_set'], case['first_set'] + case['nsets']):
         rng = core.case_rng(case['seed'], PROPERTY, 5000 + case['base'], s)
-        conds = _draw_conditions(rng, A, mA)
+        force = {1: 'last_element', 3: 'last_phase'}.get(s % 5)
+        conds = _draw_conditions(rng, A, mA, force)
         first, stop = _reference(A, mA, conds)
         mech = {'system': cfg['system'], 'iterator': cfg['iterator'],
                 'modes': '+'.join(sorted(set(c['mode'] for c in conds))), 'nconds': len(conds)}
